@@ -5,7 +5,8 @@
 (*  {"ev":"small","tid":n,"L":..,"k":..,"lazy":b,"via":"file|api","nfiles":1|2,"fmt":[..],        *)
 (*   "wl":[[barcode,index],..],                 the whitelist as written by the generator         *)
 (*   "ans":[{"q":barcode,"none":[b,b,b],"idx":s,"bc":barcode,"d":n,"raised":s}..]}                 *)
-(*        one answer of getIndexCorrectedBarcodeAndHammingDistance per string of [1..L -> 1..5]    *)
+(*        one answer of getIndexCorrectedBarcodeAndHammingDistance per string of [1..L -> 1..5];   *)
+(*   "again":[..]  a few of the same strings looked up a second time on the same parser          *)
 (*  {"ev":"wl","tid":n,"alias":s,"k":..,"entries":[[barcode,index],..]}   a shipped whitelist      *)
 (*        (independent reader); it is the whitelist of the following "q" events                   *)
 (*  {"ev":"q","tid":n,"alias":s,"q":barcode,"none":..,"idx":..,"bc":..,"d":..,"raised":s}          *)
@@ -41,7 +42,10 @@ SmallVerdict(e) ==
     LET w == MkW(e.wl)
         all == [1 .. e.L -> 1 .. 5]
         bad == { i \in DOMAIN e.ans : LookupVerdict(w, e.k, e.ans[i]) # "ok" }
+        bad2 == { i \in DOMAIN e.again : LookupVerdict(w, e.k, e.again[i]) # "ok" }     \* the same strings asked a second time
     IN IF { e.ans[i].q : i \in DOMAIN e.ans } # all \/ Len(e.ans) # Cardinality(all) THEN "answers_do_not_cover_all_strings"
+       ELSE IF bad = {} /\ bad2 # {} THEN LET i == CHOOSE x \in bad2 : TRUE IN
+            LookupVerdict(w, e.k, e.again[i]) \o "_on_second_lookup q=" \o ToString(e.again[i].q) \o " wl=" \o ToString(e.wl) \o " k=" \o ToString(e.k)
        ELSE IF bad = {} THEN "ok"
        ELSE LET i == CHOOSE x \in bad : \A y \in bad : x <= y
             IN LookupVerdict(w, e.k, e.ans[i]) \o " q=" \o ToString(e.ans[i].q) \o " wl=" \o ToString(e.wl) \o " k=" \o ToString(e.k)
